@@ -179,6 +179,7 @@ type fn struct {
 	fallible bool     // last result is error
 	results  []string // Go types of the non-error results
 	params   []param
+	variadic bool
 	mutated  []int // indices of the pointer parameters (receiver included) whose fields the body assigns
 	text     string
 	err      string
@@ -490,6 +491,10 @@ type nRange struct {
 	xs, v, vt, r string
 	body, rest   node
 }
+type nFoldRet struct { // a range loop that updates variables declared outside it and may return
+	pat, xs, v, vt, r string
+	body, rest        node
+}
 
 func pr(b *strings.Builder, n node, ind string) {
 	switch x := n.(type) {
@@ -545,6 +550,17 @@ func pr(b *strings.Builder, n node, ind string) {
 		pr(b, x.body, ind+"    ")
 		b.WriteString(ind + "  ) " + x.pat + " " + x.xs + "\n")
 		pr(b, x.rest, ind)
+	case nFoldRet:
+		vt := x.v
+		if x.vt != "" {
+			vt = "(" + x.v + " : " + x.vt + ")"
+		}
+		b.WriteString(ind + "match Gen.Rt.foldReturn " + x.xs + " " + x.pat + " (fun " + x.pat + " " + vt + " =>\n")
+		pr(b, x.body, ind+"    ")
+		b.WriteString(ind + "  ) with\n")
+		b.WriteString(ind + "| Sum.inl " + x.r + " => " + x.r + "\n")
+		b.WriteString(ind + "| Sum.inr " + x.pat + " =>\n")
+		pr(b, x.rest, ind+"  ")
 	case nRange:
 		vt := x.v
 		if x.vt != "" {
@@ -636,6 +652,8 @@ type ftrans struct {
 	loopOuter map[*ast.Object]bool
 	joinDepth int
 	inFold    bool
+	inFoldRet bool // inside a fold whose body may return: a return is `Sum.inl …`
+	inReturn  bool // translating the results of a return statement
 }
 
 var leanKeywords = map[string]bool{"at": true, "from": true, "fun": true, "end": true, "open": true, "in": true, "do": true, "then": true,
@@ -674,6 +692,9 @@ func (ft *ftrans) tmp() string {
 // terms of the result layers: value, error, panic
 func (ft *ftrans) layer(inner string) string {
 	// inner = term of the function's declared Lean type
+	if ft.inFoldRet {
+		return "Sum.inl " + atom(inner)
+	}
 	if ft.inLoop {
 		return "some " + atom(inner)
 	}
@@ -929,6 +950,16 @@ func (ft *ftrans) expr(x ast.Expr, e env, pre *[]prelude) val {
 		case token.SUB:
 			if a.cv != nil && !a.cv.isStr {
 				return (&cval{i: new(big.Int).Neg(a.cv.i)}).lean()
+			}
+		case token.AND:
+			// &x of a local struct variable, only as a result of the function (nothing can change x afterwards)
+			id, isID := unparen(c.X).(*ast.Ident)
+			if isID && id.Obj != nil && ft.inReturn {
+				if b, ok := e[id.Obj]; ok && b.kind == bVar && ft.t.structOf(b.typ) != nil && !strings.HasPrefix(b.typ, "*") {
+					if _, configured := ft.t.mod.LeanTypes["*"+b.typ]; !configured {
+						return val{s: a.s, t: "*" + b.typ}
+					}
+				}
 			}
 		}
 		failf("unary operator %s outside the subset", c.Op)
@@ -1515,6 +1546,9 @@ func (ft *ftrans) callFn(g *fn, recv *val, args []ast.Expr, e env, pre *[]prelud
 	if g.err != "" {
 		failf("calls %s, which is not translated", g.cfg.Go)
 	}
+	if g.variadic {
+		failf("a call of the variadic function %s is outside the subset", g.cfg.Go)
+	}
 	var as []string
 	if recv != nil {
 		as = append(as, atom(recv.s))
@@ -1611,6 +1645,17 @@ func (ft *ftrans) call(c *ast.CallExpr, e env, pre *[]prelude) val {
 		}
 		// builtins and conversions
 		if f.Obj == nil || f.Obj.Kind == ast.Typ {
+			if f.Name == "new" && len(c.Args) == 1 && f.Obj == nil {
+				// new(T) for a translated struct: a pointer to a fresh zero value, read as the value
+				tp := ft.t.typeOf(ft.f.pkg, ft.f.file, c.Args[0])
+				if ft.t.structOf(tp) == nil {
+					failf("new(%s) is outside the subset (not a translated struct type)", tp)
+				}
+				if _, configured := ft.t.mod.LeanTypes["*"+tp]; configured {
+					failf("new(%s): pointers to %s have a configured reading", tp, tp)
+				}
+				return val{s: ft.zero(tp), t: "*" + tp}
+			}
 			if f.Name == "len" && len(c.Args) == 1 && f.Obj == nil {
 				v := ft.expr(c.Args[0], e, pre)
 				u := ft.t.under(v.t)
@@ -1741,6 +1786,25 @@ func (ft *ftrans) convert(to string, v val) val {
 func (ft *ftrans) zero(tp string) string {
 	if z, ok := ft.t.mod.NilTerms[tp]; ok {
 		return z
+	}
+	if sc := ft.t.structOf(tp); sc != nil && !strings.HasPrefix(tp, "*") {
+		// the zero value of a translated struct: every kept field at its zero value
+		p := ft.t.loadPkg(sc.Pkg)
+		st, ok := p.types[sc.Go].(*ast.StructType)
+		if !ok {
+			failf("struct type %s not found", tp)
+		}
+		file := p.fileOf(st)
+		var fs []string
+		for _, fl := range st.Fields.List {
+			for _, nm := range fl.Names {
+				if sc.leftOut(nm.Name) {
+					continue
+				}
+				fs = append(fs, nm.Name+" := "+ft.zero(ft.t.typeOf(p, file, fl.Type)))
+			}
+		}
+		return "({ " + strings.Join(fs, ", ") + " } : " + ft.t.leanType(tp) + ")"
 	}
 	u := ft.t.under(tp)
 	switch {
@@ -1963,9 +2027,11 @@ func (ft *ftrans) ret(s *ast.ReturnStmt, e env) node {
 	if f.fallible {
 		n++
 	}
-	if ft.inFold {
+	if ft.inFold && !ft.inFoldRet {
 		failf("return inside a loop that updates variables is outside the subset")
 	}
+	ft.inReturn = true
+	defer func() { ft.inReturn = false }()
 	if len(s.Results) == 0 {
 		if n == 0 && len(f.mutated) > 0 {
 			return nLeaf{ft.okTerm(tupleOf(ft.mutatedNames()))}
@@ -3014,9 +3080,6 @@ func (ft *ftrans) rng(s *ast.RangeStmt, e env, k cont) node {
 			}
 			return true
 		})
-		if hasRet {
-			failf("a loop that both returns and updates variables declared outside it is outside the subset")
-		}
 		if ft.inFold {
 			failf("nested loops are outside the subset")
 		}
@@ -3030,12 +3093,19 @@ func (ft *ftrans) rng(s *ast.RangeStmt, e env, k cont) node {
 			names = append(names, ft.nameOf(o))
 		}
 		pat := tupleOf(names)
-		ft.inFold = true
-		body := ft.block(s.Body.List, e2, func(env) node { return nLeaf{pat} })
-		ft.inFold = false
+		ft.inFold, ft.inFoldRet = true, hasRet
+		endOfBody := pat
+		if hasRet {
+			endOfBody = "Sum.inr " + atom(pat) // the iteration ends without a return: the loop goes on with these values
+		}
+		body := ft.block(s.Body.List, e2, func(env) node { return nLeaf{endOfBody} })
+		ft.inFold, ft.inFoldRet = false, false
 		vt := ft.t.leanType(et)
 		if withIndex != nil {
 			body, vt = withIndex(body), pairT
+		}
+		if hasRet {
+			return ft.wrap(pre, nFoldRet{pat: pat, xs: atom(xs.s), v: vname, vt: vt, r: ft.tmp(), body: body, rest: k(e)})
 		}
 		return ft.wrap(pre, nFold{pat: pat, xs: atom(xs.s), v: vname, vt: vt, body: body, rest: k(e)})
 	}
@@ -3092,8 +3162,11 @@ func (t *translator) analyse(g *fn) {
 		}
 	}
 	for _, f := range ft.Params.List {
-		if _, ok := f.Type.(*ast.Ellipsis); ok {
-			failf("variadic functions are outside the subset")
+		if el, ok := f.Type.(*ast.Ellipsis); ok {
+			// inside the function a variadic parameter is a slice; calls of it from translated code are rejected
+			g.variadic = true
+			addParam(f.Names, &ast.ArrayType{Elt: el.Elt})
+			continue
 		}
 		addParam(f.Names, f.Type)
 	}
